@@ -435,6 +435,18 @@ func genHostileCase(r *prng.R, c int, w *world) []hInput {
 			emit(ns[i], ds[i])
 		}
 	}
+	if c == 0 {
+		// the smallest messages DESIGN.md section 5 names: flags=0xff, seq=1, len=0x3fffffff /
+		// 0xffffffff for a one-channel codec, and a data frame before negotiation
+		for _, dt := range []telem.DataType{telem.Uint8T, telem.Float64T, telem.UUIDT} {
+			for _, l := range []uint32{0x3fffffff, 0xffffffff} {
+				b := []byte{0xff, 1, 0, 0, 0, 0, 0, 0, 0}
+				binary.LittleEndian.PutUint32(b[5:], l)
+				out = append(out, hInput{Case: c, Sub: len(out), Target: "static", Spec: codecSpec{Keys: []uint32{1}, Types: []string{string(dt)}}, Mut: fmt.Sprintf("handcrafted-len=%#x", l), Data: b})
+			}
+		}
+		out = append(out, hInput{Case: c, Sub: len(out), Target: "http", Msg: "writer-request", Mut: "handcrafted-frame-before-open", Data: []byte{255}, needsWorld: true})
+	}
 	return out
 }
 
@@ -581,29 +593,43 @@ type batchHeader struct {
 	N         int      `json:"n"`
 }
 
-func writeBatch(path string, w *world, ins []hInput) error {
+// writeBatch writes the header line and one JSON line per input; it returns the byte
+// offset of every input line so that a restarted child can seek instead of re-reading.
+func writeBatch(path string, w *world, ins []hInput) ([]int64, error) {
 	f, err := os.Create(path)
 	if err != nil {
-		return err
+		return nil, err
 	}
 	bw := bufio.NewWriterSize(f, 1<<20)
-	enc := encjson.NewEncoder(bw)
 	hd := batchHeader{N: len(ins)}
 	for _, k := range w.keys {
 		hd.WorldKeys = append(hd.WorldKeys, uint32(k))
 	}
-	if err := enc.Encode(hd); err != nil {
+	var off int64
+	put := func(v any) error {
+		b, err := encjson.Marshal(v)
+		if err != nil {
+			return err
+		}
+		b = append(b, '\n')
+		off += int64(len(b))
+		_, err = bw.Write(b)
 		return err
 	}
+	if err := put(hd); err != nil {
+		return nil, err
+	}
+	offs := make([]int64, len(ins))
 	for i := range ins {
-		if err := enc.Encode(&ins[i]); err != nil {
-			return err
+		offs[i] = off
+		if err := put(&ins[i]); err != nil {
+			return nil, err
 		}
 	}
 	if err := bw.Flush(); err != nil {
-		return err
+		return nil, err
 	}
-	return f.Close()
+	return offs, f.Close()
 }
 
 type childRun struct {
@@ -634,12 +660,15 @@ func fatalClass(stderr string, exitErr error) (class, line string) {
 
 // runBatch feeds the batch to child processes, restarting after every death, until every
 // input has a result, a death or a stall recorded.
-func runBatch(bin, path string, n int, useLimit bool) childRun {
+func runBatch(bin, path string, offs []int64, useLimit bool) childRun {
+	n := len(offs)
 	cr := childRun{results: map[int]hResult{}, killed: map[int]string{}, stalled: map[int]bool{}}
 	from := 0
 	for spawn := 0; from < n; spawn++ {
+		tSpawn := time.Now()
+		fromAtSpawn := from
 		cmd := exec.Command(bin)
-		cmd.Env = append(os.Environ(), childEnv+"="+path, fmt.Sprintf("%s=%d", childFromEnv, from), "GOMAXPROCS=2", "GORACE=", "GOTRACEBACK=single")
+		cmd.Env = append(os.Environ(), childEnv+"="+path, fmt.Sprintf("%s=%d", childFromEnv, from), fmt.Sprintf("VERIF_C08_CHILD_OFFSET=%d", offs[from]), "GOMAXPROCS=2", "GORACE=", "GOTRACEBACK=single")
 		if useLimit {
 			cmd.Env = append(cmd.Env, fmt.Sprintf("VERIF_C08_AS_LIMIT=%d", uint64(childASLimit)))
 		}
@@ -708,8 +737,12 @@ func runBatch(bin, path string, n int, useLimit bool) childRun {
 		watchdog.Stop()
 		for range lines {
 		}
+		tRead := time.Since(tSpawn)
 		werr := cmd.Wait()
 		_ = stdout.Close()
+		if os.Getenv("VERIF_C08_DEBUG") != "" {
+			fmt.Fprintf(os.Stderr, "c08-debug: %s spawn %d from %d to %d read %v wait %v\n", filepath.Base(path), spawn, fromAtSpawn, from, tRead, time.Since(tSpawn))
+		}
 		if cr.broken != "" {
 			return cr
 		}
@@ -718,7 +751,7 @@ func runBatch(bin, path string, n int, useLimit bool) childRun {
 				cr.stalled[started] = true
 			} else {
 				cl, line := fatalClass(stderr.String(), werr)
-				cr.killed[started] = cl + "\x00" + line
+				cr.killed[started] = cl + "\x00" + line + "\x00" + panicSite(stderr.String())
 			}
 			from = started + 1
 			continue
@@ -768,24 +801,126 @@ func tail(s string, n int) string {
 	return s
 }
 
+// obs is what was observed for one input.
+type obs struct {
+	res     *hResult
+	killed  bool
+	class   string // class of the fatal error
+	line    string // first line of the fatal error
+	site    string // innermost repo function on the dying goroutine's stack
+	stalled bool
+}
+
+// runInputs decodes ins in child processes (12 in parallel for large sets); the inputs
+// are written to the replay directory before any child touches them.
+func runInputs(h *harness.H, bin string, useLimit bool, dir, tag string, w *world, ins []hInput) []obs {
+	// static targets first (their children need no in-memory cluster), then the rest
+	order := make([]int, len(ins))
+	for i := range order {
+		order[i] = i
+	}
+	sort.SliceStable(order, func(a, b int) bool { return !ins[order[a]].needsWorld && ins[order[b]].needsWorld })
+	workers := 12
+	if len(ins) < 16 {
+		workers = 1
+	}
+	type shard struct {
+		idx []int
+		run childRun
+	}
+	shards := make([]shard, workers)
+	for i, gi := range order {
+		shards[i%workers].idx = append(shards[i%workers].idx, gi)
+	}
+	var wg sync.WaitGroup
+	for si := range shards {
+		wg.Add(1)
+		go func(si int) {
+			defer wg.Done()
+			sh := &shards[si]
+			if len(sh.idx) == 0 {
+				return
+			}
+			sub := make([]hInput, len(sh.idx))
+			for i, gi := range sh.idx {
+				sub[i] = ins[gi]
+			}
+			path := filepath.Join(dir, fmt.Sprintf("batch-%s-s%d-%s-%d.jsonl", tag, h.Seed(), h.Tier(), si))
+			offs, err := writeBatch(path, w, sub)
+			if err != nil {
+				sh.run.broken = err.Error()
+				return
+			}
+			sh.run = runBatch(bin, path, offs, useLimit)
+			if sh.run.broken == "" && os.Getenv("VERIF_C08_KEEP_BATCH") == "" {
+				_ = os.Remove(path)
+			}
+		}(si)
+	}
+	wg.Wait()
+	out := make([]obs, len(ins))
+	for si := range shards {
+		sh := &shards[si]
+		if sh.run.broken != "" {
+			panic("hostile child harness broken: " + sh.run.broken)
+		}
+		for li, gi := range sh.idx {
+			var o obs
+			if line, dead := sh.run.killed[li]; dead {
+				parts := strings.SplitN(line, "\x00", 3)
+				o.killed, o.class, o.line, o.site = true, parts[0], parts[1], parts[2]
+			} else if sh.run.stalled[li] {
+				o.stalled = true
+			} else if res, ok := sh.run.results[li]; ok {
+				r := res
+				o.res = &r
+			}
+			out[gi] = o
+		}
+	}
+	return out
+}
+
+// judge applies the oracle of the statement's second sentence to one observation.
+func judge(in hInput, o obs) (sig, what string) {
+	switch {
+	case o.killed:
+		return "c08:hostile:killed:" + in.kind() + ":" + o.class + ":" + o.site,
+			fmt.Sprintf("decoding a %d-byte input (%s; %s) killed the process in %s: %s", len(in.Data), in.Mut, in.kind(), o.site, o.line)
+	case o.res == nil:
+		return "", ""
+	case o.res.Outcome == "panic":
+		return "c08:hostile:panic:" + in.kind() + ":" + o.res.Site,
+			fmt.Sprintf("decoding a %d-byte input (%s; %s) panicked instead of returning an error: %s", len(in.Data), in.Mut, in.kind(), o.res.Msg)
+	case o.res.Alloc > allocBound(len(in.Data)):
+		return "c08:hostile:alloc:" + in.kind() + ":" + o.res.Site,
+			fmt.Sprintf("decoding a %d-byte input (%s; %s) allocated %d bytes (bound %d), mostly in %s, and returned %s", len(in.Data), in.Mut, in.kind(), o.res.Alloc, allocBound(len(in.Data)), o.res.Site, o.res.Outcome)
+	case o.res.Bad != "":
+		cls := o.res.Bad
+		if i := strings.IndexByte(cls, ':'); i > 0 {
+			cls = cls[:i]
+		}
+		return "c08:hostile:malformed-frame:" + cls + ":" + in.kind(),
+			fmt.Sprintf("decoding a %d-byte input (%s; %s) returned neither an error nor a usable frame: %s", len(in.Data), in.Mut, in.kind(), o.res.Bad)
+	}
+	return "", ""
+}
+
 func layerHostile(h *harness.H) {
 	h.AddRule("hostile: a case is one decoder target (static codec; dynamic codec never updated / after 1-6 updates; WebSocket framer codec for each of the six message types before / after negotiation) with a valid seed encoding, and its inputs are the seed, 6 structure-aware mutations (length/count/key/sequence fields to boundary values, flag byte, truncation, bit flips, insert/delete/append, JSON numbers), 2 PRNG byte strings of length 0-4096, and for every 16th case truncation at every offset + all 64 flag bytes + every 32-bit field at 4 boundary values; each input is decoded in a child process (4 GiB address-space limit); evaluations count inputs; distinct+non-trivial = distinct (target kind, mutation class, outcome) over non-empty inputs")
-	h.Assume(fmt.Sprintf("memory is 'in proportion' when TotalAlloc grows by at most 1 MiB + 512 x len(input) during the decode (minimum of up to 3 repetitions)"))
+	h.Assume("memory is 'in proportion' when TotalAlloc grows by at most 1 MiB + 512 x len(input) during the decode (minimum of up to 3 repetitions)")
 	w, err := openWorld()
 	if err != nil {
 		panic(err)
 	}
-	nCases := h.N(5000, 250000)
+	nCases := h.N(1500, 50000)
 	var all []hInput
-	caseOf := map[int][2]int{}
 	for c := 0; c < nCases; c++ {
 		if h.Skip("hostile", c) {
 			continue
 		}
 		r := h.Rand("hostile", c)
-		ins := genHostileCase(r, c, w)
-		caseOf[c] = [2]int{len(all), len(all) + len(ins)}
-		all = append(all, ins...)
+		all = append(all, genHostileCase(r, c, w)...)
 	}
 	w.Close()
 
@@ -803,111 +938,98 @@ func layerHostile(h *harness.H) {
 	}
 	_ = os.MkdirAll(dir, 0o755)
 
-	// static targets first (their children need no in-memory cluster), then the rest
-	order := make([]int, len(all))
-	for i := range order {
-		order[i] = i
-	}
-	sort.SliceStable(order, func(a, b int) bool { return !all[order[a]].needsWorld && all[order[b]].needsWorld })
-	workers := 8
-	if len(all) < 64 {
-		workers = 1
-	}
-	type shard struct {
-		idx []int
-		run childRun
-	}
-	shards := make([]shard, workers)
-	for i, gi := range order {
-		// contiguous blocks keep "static first" inside each shard
-		s := i * workers / len(order)
-		shards[s].idx = append(shards[s].idx, gi)
-	}
-	var wg sync.WaitGroup
-	for si := range shards {
-		wg.Add(1)
-		go func(si int) {
-			defer wg.Done()
-			sh := &shards[si]
-			if len(sh.idx) == 0 {
-				return
-			}
-			ins := make([]hInput, len(sh.idx))
-			for i, gi := range sh.idx {
-				ins[i] = all[gi]
-			}
-			// the inputs are on disk before any child touches them
-			path := filepath.Join(dir, fmt.Sprintf("batch-s%d-%s-%d.jsonl", h.Seed(), h.Tier(), si))
-			if err := writeBatch(path, w, ins); err != nil {
-				sh.run.broken = err.Error()
-				return
-			}
-			sh.run = runBatch(bin, path, len(ins), useLimit)
-			if sh.run.broken == "" {
-				_ = os.Remove(path)
-			}
-		}(si)
-	}
-	wg.Wait()
+	t0 := time.Now()
+	observed := runInputs(h, bin, useLimit, dir, "main", w, all)
+	h.SetExtra("wall_s_hostile_main_batch", time.Since(t0).Seconds())
 
-	for si := range shards {
-		sh := &shards[si]
-		if sh.run.broken != "" {
-			panic("hostile child harness broken: " + sh.run.broken)
+	minimised := map[string]bool{}
+	for gi, in := range all {
+		o := observed[gi]
+		h.Eval()
+		h.Count("hostile_inputs", 1)
+		h.Count("hostile_input_bytes", len(in.Data))
+		mutClass := in.Mut
+		if i := strings.IndexByte(mutClass, '='); i > 0 {
+			mutClass = mutClass[:i]
 		}
-		for li, gi := range sh.idx {
-			in := all[gi]
-			h.Eval()
-			h.Count("hostile_inputs", 1)
-			h.Count("hostile_input_bytes", len(in.Data))
-			mutClass := in.Mut
-			if i := strings.IndexByte(mutClass, '='); i > 0 {
-				mutClass = mutClass[:i]
-			}
-			h.Seen("hostile_targets", in.kind())
-			h.Seen("hostile_mutations", mutClass)
-			wit := map[string]any{"input": in, "kind": in.kind(), "len": len(in.Data)}
-			if line, dead := sh.run.killed[li]; dead {
-				parts := strings.SplitN(line, "\x00", 2)
-				h.Count("child_deaths", 1)
-				wit["child_stderr"] = parts[1]
-				h.Violation("hostile", in.Case, "c08:hostile:killed:"+in.kind()+":"+parts[0],
-					fmt.Sprintf("decoding a %d-byte input (%s of a valid %s encoding) killed the process: %s", len(in.Data), in.Mut, in.kind(), parts[1]), wit)
-				h.Distinct(fmt.Sprint(in.kind(), mutClass, "killed"))
-				continue
-			}
-			if sh.run.stalled[li] {
-				h.Inconclusive("hostile-decode-stalled")
-				continue
-			}
-			res, ok := sh.run.results[li]
-			if !ok {
-				h.Inconclusive("hostile-no-result")
-				continue
-			}
-			h.Count("decode_"+res.Outcome, 1)
-			if len(in.Data) > 0 {
-				h.Distinct(fmt.Sprint(in.kind(), mutClass, res.Outcome))
-			}
-			if gi < 3 {
-				h.Sample(map[string]any{"layer": "hostile", "kind": in.kind(), "mut": in.Mut, "len": len(in.Data), "outcome": res.Outcome, "alloc": res.Alloc})
-			}
-			wit["result"] = res
-			switch {
-			case res.Outcome == "panic":
-				h.Violation("hostile", in.Case, "c08:hostile:panic:"+in.kind()+":"+res.Site,
-					fmt.Sprintf("decoding a %d-byte input (%s, %s) panicked instead of returning an error: %s", len(in.Data), in.Mut, in.kind(), res.Msg), wit)
-			case res.Alloc > allocBound(len(in.Data)):
+		h.Seen("hostile_targets", in.kind())
+		h.Seen("hostile_mutations", mutClass)
+		outcome := "none"
+		switch {
+		case o.killed:
+			outcome = "killed"
+			h.Count("child_deaths", 1)
+		case o.stalled:
+			h.Inconclusive("hostile-decode-stalled")
+			continue
+		case o.res == nil:
+			h.Inconclusive("hostile-no-result")
+			continue
+		default:
+			outcome = o.res.Outcome
+			if o.res.Alloc > allocBound(len(in.Data)) {
 				h.Count("alloc_over_bound", 1)
-				h.Violation("hostile", in.Case, "c08:hostile:alloc:"+in.kind(),
-					fmt.Sprintf("decoding a %d-byte input (%s, %s) allocated %d bytes (bound %d) and returned %s", len(in.Data), in.Mut, in.kind(), res.Alloc, allocBound(len(in.Data)), res.Outcome), wit)
-			case res.Bad != "":
-				h.Violation("hostile", in.Case, "c08:hostile:malformed-frame:"+in.kind(),
-					fmt.Sprintf("decoding a %d-byte input (%s, %s) returned neither an error nor a well-formed frame: %s", len(in.Data), in.Mut, in.kind(), res.Bad), wit)
 			}
-			if in.Mut == "valid" && res.Outcome != "frame" && !(in.kind() == "dynamic-fresh" || strings.HasSuffix(in.kind(), "-fresh")) {
-				h.Count("valid_seed_not_decoded", 1)
+		}
+		h.Count("decode_"+outcome, 1)
+		if len(in.Data) > 0 {
+			h.Distinct(fmt.Sprint(in.kind(), mutClass, outcome))
+		}
+		if gi < 3 {
+			h.Sample(map[string]any{"layer": "hostile", "kind": in.kind(), "mut": in.Mut, "len": len(in.Data), "outcome": outcome})
+		}
+		if in.Mut == "valid" && outcome != "ok" && !strings.HasSuffix(in.kind(), "-fresh") {
+			h.Count("valid_seed_not_decoded", 1)
+		}
+		sig, what := judge(in, o)
+		if sig == "" {
+			continue
+		}
+		wit := map[string]any{"input": in, "kind": in.kind(), "len": len(in.Data), "result": o.res, "fatal": o.line}
+		if !minimised[sig] {
+			// first witness of a signature: the shortest prefix of the input that still
+			// produces the same signature
+			minimised[sig] = true
+			if m, ok := minimisePrefix(h, bin, useLimit, dir, w, in, sig); ok {
+				wit["minimised_input"] = m
+				wit["minimised_hex"] = fmt.Sprintf("%x", m.Data)
+				what += fmt.Sprintf(" [shortest prefix with the same signature: %d bytes %x]", len(m.Data), clip(m.Data, 48))
 			}
+		}
+		h.Violation("hostile", in.Case, sig, what, wit)
+	}
+}
+
+func clip(b []byte, n int) []byte {
+	if len(b) > n {
+		return b[:n]
+	}
+	return b
+}
+
+func minimisePrefix(h *harness.H, bin string, useLimit bool, dir string, w *world, in hInput, sig string) (hInput, bool) {
+	if len(in.Data) <= 1 {
+		return in, false
+	}
+	var cands []hInput
+	// every length up to 32, then geometrically spaced ones: most inputs that keep the
+	// signature also kill or restart a child, so the candidate list is kept short
+	for n := 0; n < len(in.Data); {
+		c := in
+		c.Data = append([]byte{}, in.Data[:n]...)
+		c.Mut = in.Mut + "+prefix"
+		cands = append(cands, c)
+		if n < 32 {
+			n++
+		} else {
+			n += n / 4
 		}
 	}
+	obsv := runInputs(h, bin, useLimit, dir, "min", w, cands)
+	for i, c := range cands {
+		if s, _ := judge(c, obsv[i]); s == sig {
+			return c, true
+		}
+	}
+	return in, false
 }
